@@ -1,6 +1,7 @@
 import PhysisModel.Proofs.PatchChain
 import PhysisModel.Proofs.PatchSpecFacts
 import PhysisModel.Proofs.PatchSparse
+import PhysisModel.Proofs.BinrwTiePatch
 /-!
 # C03 — applying a ZiPatch has exactly the reference effect on the install
 
@@ -306,5 +307,54 @@ example :
     ((runChainS [exBig] []).map fun t => t.filterMap fun e =>
       match e.2 with | .file f => some (len f, fnvS f) | .dir => none) =
     some [(4294967424, 0x1ab710bd9b6f9954), (8589935232, 0x6baef53e55484a25)] := by decide +kernel
+
+end Physis.C03
+
+/-! ### T4: binrw declarations regenerated from the source
+
+`Generated/BinrwPatch.lean` is re-translated from the `#[binrw]` declarations of `src/patch.rs` (and
+`Platform` / `Region` of `src/common.rs`) on every run (`lib/binrw2lean.py`).  `Model/Patch.lean` reads the
+SQPK payloads in anonymous `do` blocks inside `rdSqpk`; each theorem says: when the bytes before the
+payload (the u32 size and the operation byte) select the struct, `rdSqpk` is `Layout.read` of the
+regenerated descriptor on the payload followed by a pure projection, a read error being `Rd.fail`
+(`Proofs/BinrwTiePatch.lean`).  The ambient `.little` is `PatchChunk`'s `#[brw(little)]`; the payload
+structs declare `big` themselves. -/
+namespace Physis.C03
+open Physis.Binrw Physis.Generated
+
+/-- `SqpkTargetInfo` (also what C15's platform string depends on): `pad_before = 4` then the
+`repr = u8` `Platform` — the low byte of the big-endian u16 — `Region` as big-endian i16, two u16,
+two little-endian u64, `pad_after = 96` -/
+theorem c03_binrw_SqpkTargetInfo (s s1 s2 : Bytes) (x : UInt32)
+    (h1 : Patch.rdU32be s = some (x, s1)) (h2 : Patch.rdU8 s1 = some (0x54, s2)) :
+    Patch.rdSqpk s =
+      BinrwTie.Patch.toRd (via BinrwTie.Patch.targetInfoOf (Layout.read .little BinrwPatch.sqpkTargetInfo s2)) :=
+  BinrwTie.Patch.rdSqpk_targetInfo_generated s s1 s2 x h1 h2
+
+/-- `SqpkDeleteData` (operations `D` and `E`) -/
+theorem c03_binrw_SqpkDeleteData (s s1 s2 : Bytes) (x : UInt32) (op : UInt8) (hop : op = 0x44 ∨ op = 0x45)
+    (h1 : Patch.rdU32be s = some (x, s1)) (h2 : Patch.rdU8 s1 = some (op, s2)) :
+    Patch.rdSqpk s =
+      BinrwTie.Patch.toRd (via (BinrwTie.Patch.deleteDataOf op) (Layout.read .little BinrwPatch.sqpkDeleteData s2)) :=
+  BinrwTie.Patch.rdSqpk_deleteData_generated s s1 s2 x op hop h1 h2
+
+/-- `SqpkAddData`: the translated prefix (pad 3, ids, three block counts), then `block_number << 7`
+bytes of `block_data` (`parse_with`, not translated: `BinrwTie.Patch.addDataRest`) -/
+theorem c03_binrw_SqpkAddData (s s1 s2 : Bytes) (x : UInt32)
+    (h1 : Patch.rdU32be s = some (x, s1)) (h2 : Patch.rdU8 s1 = some (0x41, s2)) :
+    Patch.rdSqpk s =
+      BinrwTie.Patch.toRd ((Layout.read .little BinrwPatch.sqpkAddData s2).bind BinrwTie.Patch.addDataRest) :=
+  BinrwTie.Patch.rdSqpk_addData_generated s s1 s2 x h1 h2
+
+/-- non-vacuity of the hypotheses: a size word followed by the operation byte `T` -/
+example : Patch.rdU32be [0, 0, 0, 120, 0x54, 9] = some (120, [0x54, 9]) ∧ Patch.rdU8 [0x54, 9] = some (0x54, [9]) := by
+  decide
+
+/-- `SqpkPatchInfo` and `ApplyOptionChunk` (with the `ApplyOption` enum's own `#[brw(big)]`): the
+regenerated descriptors have the expected normal form (their reads in the model are not tied yet) -/
+theorem c03_binrw_SqpkPatchInfo_ApplyOption_declared :
+    BinrwPatch.sqpkPatchInfo.normalizeAt .little = BinrwTie.Patch.Expected.sqpkPatchInfo.normalizeAt .little ∧
+    BinrwPatch.applyOptionChunk.normalizeAt .little = BinrwTie.Patch.Expected.applyOptionChunk.normalizeAt .little :=
+  ⟨BinrwTie.Patch.sqpkPatchInfo_generated, BinrwTie.Patch.applyOptionChunk_generated⟩
 
 end Physis.C03
